@@ -31,7 +31,9 @@ Fs == { <<"units", "", 0>>, <<"cost", "", 0>>,
 InvOver(L, N) == UNION { [S -> N] : S \in SUBSET L }
 SeqsUpTo(n, S) == UNION { [1..k -> S] : k \in 0..n }
 LotsH == IF HomLots = 5 THEN LotsM \ {<<"EUR", NoCost>>} ELSE LotsM \ {<<"EUR", NoCost>>, <<"HOOL", NoCost>>}
-PosM == { <<k, n>> : k \in LotsM, n \in NumsM }
+(* sequences of 4 positions: a smaller alphabet (4 lots x 2 numbers), to keep the run in minutes *)
+PosM == IF MaxLen >= 4 THEN { <<k, n>> : k \in {<<"USD", NoCost>>, <<"HOOL", C1>>, <<"HOOL", C2>>, <<"AAPL", C3>>}, n \in {-2, 3} }
+        ELSE { <<k, n>> : k \in LotsM, n \in NumsM }
 
 VARIABLE arg
 (* initial states are computed by one thread: start from seeds and let the workers expand them *)
